@@ -5,7 +5,8 @@ import (
 )
 
 // C20 / X1: escrow identity, one inductive step per message handler.
-// World: chain 1 with one open sell order of symbolic size A owned by account 0, the escrow pool of
+// World: chain 1 with one open sell order of symbolic size A owned by account 0 (its redundant
+// Committee field is arbitrary: genesis import neither sets nor checks it), the escrow pool of
 // chain 1 holding exactly A (the invariant), three accounts, the reward pool of chain 1.
 // Invariant: escrow pool(chain) = sum of AmountForSale of the open orders of that chain.
 // A message enters through its real stateless Check() and then the real handler, as in
@@ -18,7 +19,7 @@ func zzEscrowWorld(sm *StateMachine) (orderAmt uint64) {
 	orderAmt = zzN64("orderAmount")
 	// supply invariant (C04): all balances, pools and the escrowed amount sum to a total < 2^64
 	zzAssume(orderAmt >= 1 && total+orderAmt >= total)
-	if err := sm.SetOrder(&lib.SellOrder{Id: zzOrderId, Committee: 1, AmountForSale: orderAmt, RequestedAmount: 7,
+	if err := sm.SetOrder(&lib.SellOrder{Id: zzOrderId, Committee: zzU64("order.committeeField"), AmountForSale: orderAmt, RequestedAmount: 7,
 		SellerReceiveAddress: zzAddr(0), SellersSendAddress: zzAddr(0)}, 1); err != nil {
 		panic("SetOrder")
 	}
